@@ -23,6 +23,7 @@ func init() {
 					cs = append(cs, driver.Case{Harness: "verifH_c06_history", Pkg: "sm2", Config: "purego", Params: P("calls", calls, "dsel", dsel), Overrides: sm2Overrides(), MaxUnwind: 200, TimeoutS: 1200})
 				}
 			}
+			cs = append(cs, driver.Case{Harness: "verifH_c06_encode", Pkg: "sm2", Config: "purego", Params: P(), MaxUnwind: 200, TimeoutS: 1200})
 			return cs
 		},
 		Functions:   []string{"sm2.parseSignature", "sm2.signSM2EC, (*PrivateKey).inverseOfPrivateKeyPlus1 (history of calls on one key object)", "internal/bigmod (real limb code), sync.Once (sequential model)", "golang.org/x/crypto/cryptobyte (real code)"},
